@@ -414,3 +414,80 @@ func ReadLexerGrammar(path string) (*LexerGrammar, error) {
 	}
 	return lg, nil
 }
+
+// Dispatch is what one generated context class does when a tree walker enters / leaves it: the listener callbacks
+// it calls, in the order written.
+type Dispatch struct {
+	Context     string // rule context name without the "Context" suffix
+	Enter, Exit []string
+}
+
+// ListenerDispatch extracts, from a generated parser source, the callbacks every rule context hands itself to in
+// EnterRule / ExitRule (Go), enterRule / exitRule (TypeScript, Java), in order of appearance.
+func ListenerDispatch(src, lang string) []Dispatch {
+	var classRe, methRe, callRe *regexp.Regexp
+	var bodyEnd string
+	switch lang {
+	case "go":
+		methRe = regexp.MustCompile(`func \(s \*(\w+)Context\) (Enter|Exit)Rule\(listener antlr\.ParseTreeListener\) \{`)
+		callRe = regexp.MustCompile(`listenerT\.(\w+)\(s\)`)
+		bodyEnd = "\n}"
+	case "ts":
+		classRe = regexp.MustCompile(`export class (\w+)Context extends`)
+		methRe = regexp.MustCompile(`public (enter|exit)Rule\(listener: \w+\): void \{`)
+		callRe = regexp.MustCompile(`listener\.(\w+)\(this\)`)
+		bodyEnd = "\n\t}"
+	case "java":
+		classRe = regexp.MustCompile(`public static class (\w+)Context extends`)
+		methRe = regexp.MustCompile(`public void (enter|exit)Rule\(ParseTreeListener listener\) \{`)
+		callRe = regexp.MustCompile(`\)\s*listener\)\.(\w+)\(this\)`)
+		bodyEnd = "\n\t\t}"
+	default:
+		return nil
+	}
+	type classAt struct {
+		pos  int
+		name string
+	}
+	var classes []classAt
+	if classRe != nil {
+		for _, m := range classRe.FindAllStringSubmatchIndex(src, -1) {
+			classes = append(classes, classAt{m[0], src[m[2]:m[3]]})
+		}
+	}
+	var out []Dispatch
+	idx := map[string]int{}
+	for _, m := range methRe.FindAllStringSubmatchIndex(src, -1) {
+		var ctx, which string
+		if lang == "go" {
+			ctx, which = src[m[2]:m[3]], src[m[4]:m[5]]
+		} else {
+			which = src[m[2]:m[3]]
+			for _, c := range classes {
+				if c.pos < m[0] {
+					ctx = c.name
+				}
+			}
+		}
+		rest := src[m[1]:]
+		if e := strings.Index(rest, bodyEnd); e >= 0 {
+			rest = rest[:e]
+		}
+		var calls []string
+		for _, c := range callRe.FindAllStringSubmatch(rest, -1) {
+			calls = append(calls, c[1])
+		}
+		i, ok := idx[ctx]
+		if !ok {
+			i = len(out)
+			idx[ctx] = i
+			out = append(out, Dispatch{Context: ctx})
+		}
+		if strings.EqualFold(which, "enter") {
+			out[i].Enter = append(out[i].Enter, calls...)
+		} else {
+			out[i].Exit = append(out[i].Exit, calls...)
+		}
+	}
+	return out
+}
